@@ -324,7 +324,7 @@ Proof.
   { unfold feed_all. cbn [fold_left]. rewrite !(for_cmd nick0 prefix0) by reflexivity.
     destruct (cur_valid b1 bB R3 Hn1 C3) as [Hv Hb].
     rewrite (feed_numeric str_324 _ bB st_do324 Hv); try reflexivity; try exact addMsg_324; [|intros; discriminate].
-    unfold st_do324 at 1. cbn [m_args]. rewrite chan_upd_or_new_has by (apply (cur_has b1 bB R3 C3)).
+    unfold st_do324 at 1. cbn [m_args]. rewrite chan_upd_known_has by (apply (cur_has b1 bB R3 C3)).
     rewrite (sep_modes_args ch plus_shape).
     pose proof (cur_upd b1 bB R3 (fun c0 => chan_324 c0 (map conv_chg (plus_chgs ch))) C3) as C4.
     cbv beta in C4. unfold plus_chgs in C4 at 2. fold letters in C4.
@@ -332,7 +332,7 @@ Proof.
     fold R4 in C4. set (b4 := chan_upd c _ bB) in *.
     destruct (cur_valid b1 b4 R4 Hn1 C4) as [Hv4 Hb4].
     rewrite (feed_numeric str_329 _ b4 st_do329 Hv4); try reflexivity; try exact addMsg_329; [|intros; discriminate].
-    unfold st_do329 at 1. cbn [m_args]. rewrite chan_upd_or_new_has by (apply (cur_has b1 b4 R4 C4)).
+    unfold st_do329 at 1. cbn [m_args]. rewrite chan_upd_known_has by (apply (cur_has b1 b4 R4 C4)).
     rewrite Hcreated, (created_rt). apply (cur_upd b1 b4 R4 (fun c0 => set_created c0 1000%Z) C4). }
   set (bC := fa bB _) in *.
   (* bans, who *)
